@@ -11,7 +11,25 @@ def C(quick, thorough=None):
     return {'quick': quick, 'thorough': thorough or ALLCONF}
 
 PROPS = {
-    'C08': {'gens': ['c08'], 'configs': C(['default', 'int64'])},
+    'C11': {'gens': ['c11'], 'configs': C(['default', 'int64'])},
+    'C13': {'gens': ['c13'], 'configs': C(['default', 'int64'])},
+    'C12': {'gens': ['c12'], 'configs': C(['default', 'int64'])},
+    'C01': {'gens': ['c01'], 'configs': C(['default', 'int64'])},
+    'C02': {'gens': ['c02'], 'configs': C(['default', 'int64'])},
+    'C03': {'gens': ['c03'], 'configs': C(['default', 'int64'])},
+    'C04': {'gens': ['c04'], 'configs': C(['default', 'int64'])},
     'C05': {'gens': ['c05'], 'configs': C(['default', 'int64', 'int128struct'], ALLCONF + ['o2']),
             'assumptions': ['x86-64 assembly, safegcd modinv and ecmult internals are tied by correspondence only']},
+    'C08': {'gens': ['c08'], 'configs': C(['default', 'int64'])},
+    'C09': {'gens': ['c09'], 'configs': C(['default', 'int64'])},
+    'C10': {'gens': ['c10'], 'configs': C(['default', 'int64'])},
+    'C14': {'gens': ['c14'], 'configs': C(['default', 'int64'], ['default', 'asm', 'int128struct', 'int64']),
+            'assumptions': ['VERIFY build excluded: secp256k1_ecdsa_adaptor_recover with a signature whose s = 0 reaches '
+                            'secp256k1_eckey_pubkey_serialize33 on the point at infinity (VERIFY_CHECK abort, eckey_impl.h:39); '
+                            'production builds return 0 and leave deckey32 untouched, which is what the model says']},
+    'C15': {'gens': ['c15'], 'configs': C(['default', 'int64'])},
+    'C16': {'gens': ['c16'], 'configs': C(['default', 'int64'])},
+    'C17': {'gens': ['c17'], 'configs': C(['default', 'int64'])},
+    'C18': {'gens': ['c18'], 'configs': C(['default', 'int64'])},
+    'C19': {'gens': ['c19'], 'configs': C(['default', 'int64'])},
 }
